@@ -75,12 +75,24 @@ pub struct ConfigParts {
     pub convert_sourcemap: Option<String>,
     /// indexing style of the Roblox target of `convert_require` (None = default)
     pub convert_indexing: Option<String>,
+    /// Some(input directory): `convert_require` rewrites path requires into alias requires
+    /// of a `path` target whose aliases are nested (`@root` = input, `@sub` = input/sub,
+    /// `@deep` = input/sub/deep); `{CFGREL}` stands for the way from the configuration
+    /// file's directory to the working directory and is filled in by `gen_invocation`
+    pub convert_path_aliases: Option<String>,
 }
 
 impl ConfigParts {
     pub fn to_text(&self) -> String {
         let mut fields: Vec<String> = Vec::new();
-        if let Some(sourcemap) = &self.convert_sourcemap {
+        if let Some(input) = &self.convert_path_aliases {
+            let mut rules = vec![format!(
+                "{{\"rule\":\"convert_require\",\"current\":\"path\",\"target\":{{\"name\":\"path\",\"sources\":{{\"@root\":\"{{CFGREL}}{0}\",\"@sub\":\"{{CFGREL}}{0}/sub\",\"@deep\":\"{{CFGREL}}{0}/sub/deep\",\"@other\":\"{{CFGREL}}{0}/other dir\"}}}}}}",
+                input
+            )];
+            rules.extend(self.rules.clone().unwrap_or_default());
+            fields.push(format!("\"rules\":[{}]", rules.join(",")));
+        } else if let Some(sourcemap) = &self.convert_sourcemap {
             let indexing = match &self.convert_indexing {
                 Some(style) => format!(",\"indexing_style\":\"{}\"", style),
                 None => String::new(),
@@ -160,6 +172,7 @@ pub fn gen_config_parts(rng: &mut Rng, bundle: Option<&str>) -> ConfigParts {
         skip_files: Vec::new(),
         convert_sourcemap: None,
         convert_indexing: None,
+        convert_path_aliases: None,
     }
 }
 
@@ -770,7 +783,7 @@ pub fn gen_invocation(
             };
             extra.push(FsEntry {
                 path: name.to_owned(),
-                body: Body::Text(config_text.to_owned()),
+                body: Body::Text(config_text.replace("{CFGREL}", "./")),
             });
             ConfigSource::Default
         }
@@ -780,9 +793,10 @@ pub fn gen_invocation(
             } else {
                 "custom-config.json"
             };
+            let rel = if parent(path).is_empty() { "./" } else { "../" };
             extra.push(FsEntry {
                 path: path.to_owned(),
-                body: Body::Text(config_text.to_owned()),
+                body: Body::Text(config_text.replace("{CFGREL}", rel)),
             });
             ConfigSource::At(path.to_owned())
         }
